@@ -122,8 +122,9 @@ def lit(v):
 
 class Interp:
     def __init__(self, facts, body, summaries=None, unroll=1, inline=None, field_hook=None, for_once=False, result_combinators=True, combinators=False, generic_loops=False,
-                 domain=None, local_try=False):
+                 domain=None, local_try=False, places=False):
         self.field_hook = field_hook
+        self.places = places          # `&mut` locals name the place they were taken from; Vec mutators act on that place (see ref_place)
         # an optional value domain (rules/strdom.py): decides equality / ordering / indexing / iteration of the values it knows
         # (symbolic strings, finite sequences); every hook answers None for "not mine", and the interpreter goes on as without it
         self.domain = domain
@@ -187,7 +188,7 @@ class Interp:
             return None
         B = hirq.Body(self.facts, rec)
         sub = Interp(self.facts, B, self.summaries, self.unroll, self.inline, self.field_hook, self.for_once, self.result_combinators, self.combinators, self.generic_loops,
-                     self.domain, self.local_try)
+                     self.domain, self.local_try, self.places)
         sub._depth = getattr(self, '_depth', 0) + 1
         env = {}
         states = [St(env, st.heap, st.ev, st.pc, st.ctr)]
@@ -252,6 +253,10 @@ class Interp:
     def ev_Path(self, e, st):
         if e.get('res') == 'local':
             b = e['bind']
+            if self.places and b in st.env:
+                P = self.ref_place(b)
+                if P is not None and P[0] != 'param':
+                    return [Out('val', self.read_place(P, st), st)]       # a `&mut` local reads the place it names, as it is now
             if b in st.env:
                 return [Out('val', st.env[b], st)]
             return [Out('val', ('unbound', b, e.get('name')), st)]
@@ -316,6 +321,11 @@ class Interp:
             if o.kind == 'val':
                 v = o.val
                 if v[0] == 'lit' and isinstance(v[1], int):
+                    # `as` between integer types is exact on a literal: the value modulo 2^width of the target type, read in the
+                    # target's signedness (truncation, sign- and zero-extension are all this one function of the value)
+                    rng = INT_RANGE.get(hirq.strip_refs(str(e.get('ty') or '')))
+                    if rng is not None and not isinstance(v[1], bool) and not (rng[0] <= v[1] <= rng[1]):
+                        v = ('lit', (v[1] - rng[0]) % (rng[1] - rng[0] + 1) + rng[0])
                     outs.append(Out('val', v, o.st))
                 elif v[0] == 'ctor' and not v[2]:
                     # unit variant cast to integer: discriminant if known
@@ -423,6 +433,110 @@ class Interp:
         if place in st.heap:
             return st.heap[place]
         return field_term(base, name)
+
+    # ------------------------------------------------------------------ places behind `&mut` locals (option `places`)
+    # A term such as self.ldap.Some#0.controls names a place *and* the value the place held on entry.  A local of type `&mut T`
+    # that was bound once, to a field / Option-payload chain rooted in a parameter, is a name for that place for as long as it
+    # lives (the borrow checker guarantees that nothing else writes the place meanwhile): reading the local reads the place as it
+    # is *now*, and a mutating call on the local is a store to the place.
+    OPTION_REBORROWS = ('as_mut', 'as_ref', 'as_deref', 'as_deref_mut')       # Option<T> place -> Option<&T>: same place
+    OPTION_PAYLOADS = ('unwrap', 'expect', 'unwrap_unchecked')                # -> the payload of the good variant
+
+    def place_of(self, e, depth=0):
+        """The place a place expression denotes (a term rooted in a parameter), or None.  Purely structural."""
+        if depth > 40:
+            return None
+        e = hirq.peel_refs(e)
+        k = e['k']
+        if k == 'Path' and e.get('res') == 'local':
+            return self.ref_place(e['bind'], depth + 1)
+        if k == 'Field':
+            b = self.place_of(e['e'], depth + 1)
+            return ('field', b, e['name']) if b is not None else None
+        if k == 'MethodCall':
+            cal = callee_of(e) or ''
+            name = cal.rsplit('::', 1)[-1]
+            good = 'Some' if cal.startswith('core::option::Option::<T>::') else 'Ok' if cal.startswith('core::result::Result::<T, E>::') else None
+            if good is not None and name in self.OPTION_REBORROWS and not e['args']:
+                return self.place_of(e['recv'], depth + 1)
+            if good is not None and name in self.OPTION_PAYLOADS:
+                b = self.place_of(e['recv'], depth + 1)
+                return ('variant', b, good, 0) if b is not None else None
+        if k == 'Try':
+            b = self.place_of(e['e'], depth + 1)
+            good = 'Some' if (e['e'].get('ty') or '').startswith('core::option::Option') else 'Ok'
+            return ('variant', b, good, 0) if b is not None else None
+        return None
+
+    def ref_place(self, b, depth=0):
+        """The place a local names: a parameter is its own root; a `&mut` local bound once (let / if-let / match arm) names the
+        place its initialiser denotes, projected as its pattern says (`Some(x)` -> the payload, `S { f, .. }` -> the field)."""
+        cache = self.__dict__.setdefault('_ref_places', {})
+        if b in cache:
+            return cache[b]
+        cache[b] = None           # (cycle guard)
+        d = self.body.defs.get(b)
+        r = None
+        if d is not None and d['kind'] == 'param' and not d['proj']:
+            r = ('param', d['name'])
+        elif d is not None and d['kind'] in ('let', 'letexpr', 'arm') and d['src'] is not None and not any(a['l']['k'] == 'Path' for a in self.body.assigns.get(b, ())) \
+                and (d['pat'].get('ty') or '').startswith('&mut '):
+            r = self.place_of(d['src'], depth + 1)
+            for pr in d['proj']:
+                if r is None:
+                    break
+                if pr[0] == 'variant' and pr[1] in ('Some', 'Ok') and pr[2] == 0:
+                    r = ('variant', r, pr[1], 0)
+                elif pr[0] == 'vfield' and self.is_struct_name(pr[1]):
+                    r = ('field', r, pr[2])
+                elif pr[0] == 'tup':
+                    r = ('field', r, str(pr[1]))
+                else:
+                    r = None
+        cache[b] = r
+        return r
+
+    def read_place(self, P, st):
+        """What the place holds now (stores on this path included)."""
+        if P[0] == 'field':
+            return self.read_field(self.read_place(P[1], st), P[2], st)
+        if P[0] == 'variant':
+            o = self.read_place(P[1], st)
+            if o[0] == 'ctor' and o[1] == P[2] and P[3] < len(o[2]):
+                return o[2][P[3]]
+            return ('variant', o, P[2], P[3])
+        return P
+
+    def write_place(self, P, val, st, node):
+        """Store val to the place.  Writing the payload of an Option place writes Some(val): whoever holds a reference to the
+        payload has found the option in that variant."""
+        if P[0] == 'field':
+            place = ('field', self.read_place(P[1], st), P[2])
+            return st.store(place, val).event(('store', place, val, node))
+        if P[0] == 'variant' and P[3] == 0:
+            return self.write_place(P[1], ('ctor', P[2], (val,)), st, node)
+        return st.event(('store-unknown', P, val, node))
+
+    def vec_target(self, recv):
+        """What a Vec method's receiver expression stands for: an owned local vector ('local', binding), or - with `places` - the
+        place behind a `&mut Vec` local / a place expression ('place', P).  None: not a vector this interpreter keeps track of."""
+        r = hirq.peel_refs(recv)
+        if r['k'] == 'Path' and r.get('res') == 'local':
+            P = self.ref_place(r['bind']) if self.places else None
+            if P is not None and P[0] != 'param':
+                return ('place', P)
+            return ('local', r['bind'])
+        if self.places:
+            P = self.place_of(r)
+            if P is not None and P[0] != 'param':
+                return ('place', P)
+        return None
+
+    def vec_read(self, tgt, st):
+        return st.env.get(tgt[1], ('unk', 'vec')) if tgt[0] == 'local' else self.read_place(tgt[1], st)
+
+    def vec_write(self, tgt, val, st, node):
+        return st.set(tgt[1], val) if tgt[0] == 'local' else self.write_place(tgt[1], val, st, node)
 
     def ev_Index(self, e, st):
         res, abn = self.seq([e['e'], e['idx']], st)
@@ -937,6 +1051,11 @@ class Interp:
                 s = o.st.store(place, val).event(('store', place, val, node))
                 outs.append(Out('val', UNIT, s))
             return outs
+        if self.places and lhs['k'] == 'Index' and hirq.strip_refs(lhs['e'].get('ty') or '').startswith('alloc::vec::Vec<'):
+            tgt = self.vec_target(lhs['e'])
+            if tgt is not None:
+                c = self.vec_read(tgt, st)          # v[i] = x: some element is replaced, which one is not modelled
+                return [Out('val', UNIT, self.vec_write(tgt, ('mutated', c, 'index-assign', node.get('id')), st, node).event(('store-unknown', 'Index', val, node)))]
         return [Out('val', UNIT, st.event(('store-unknown', lhs.get('k'), val, node)))]
 
     def ev_Call(self, e, st):
@@ -1059,17 +1178,29 @@ class Interp:
                                 outs.append(o)
                     return outs
         if cal.endswith('alloc::vec::Vec::<T, A>::push') and len(e['args']) == 1:
-            recv = hirq.peel_refs(e['recv'])
-            if recv['k'] == 'Path' and recv.get('res') == 'local':
+            tgt = self.vec_target(e['recv'])
+            if tgt is not None:
                 outs = []
                 for o in self.ev(e['args'][0], st):
                     if o.kind != 'val':
                         outs.append(o); continue
-                    old = o.st.env.get(recv['bind'], ('unk', 'vec'))
-                    new = ('vec', old[1] + (o.val,)) if old[0] == 'vec' else ('vecpush', old, o.val)
-                    s2 = o.st.set(recv['bind'], new).event(('call', cal, (old, o.val), e))
+                    old = self.vec_read(tgt, o.st)
+                    base = old
+                    npop = o.st.heap.get(('cursor', old), 0)
+                    if npop and old[0] != 'vec':
+                        # the vector was read destructively (pop: see the cursor model at the end of builtin_summary) before this
+                        # push: what the push lands on is the vector without its last npop elements, not the vector
+                        base = ('popped', old, npop)
+                    new = ('vec', old[1][:max(len(old[1]) - npop, 0)] + (o.val,)) if old[0] == 'vec' else ('vecpush', base, o.val)
+                    s2 = self.vec_write(tgt, new, o.st, e).event(('call', cal, (old, o.val), e))
                     outs.append(Out('val', UNIT, s2))
                 return outs
+        if self.places and hirq.strip_refs(e['recv'].get('ty') or '').startswith('alloc::vec::Vec<') \
+                and (e['recv'].get('adj_ty') or e['recv'].get('ty') or '').startswith('&mut '):
+            # any method that borrows a tracked vector mutably (Vec's own, or a slice method reached through DerefMut)
+            r = self.vec_mutator(cal, e, st)
+            if r is not None:
+                return r
         if cal.endswith('alloc::vec::Vec::<T, A>::insert') and len(e['args']) == 2:
             # vec.insert(k, x) on a vector whose elements are known, at a literal position
             recv = hirq.peel_refs(e['recv'])
@@ -1162,6 +1293,59 @@ class Interp:
             outs.extend(self.call(cal, vals, e, s))
         return outs + abn
 
+    VEC_CAPACITY_ONLY = ('reserve', 'reserve_exact', 'shrink_to_fit', 'shrink_to', 'try_reserve', 'try_reserve_exact')
+
+    def vec_mutator(self, cal, e, st):
+        """A `&mut self` method on a tracked vector (owned local or place, see vec_target), one model per method:
+          pop()        removes and returns the last element: of [..elems, x] it is Some(x) leaving [..elems]; of a vector whose
+                       elements are not known it is the k-th read of the ordinal cursor, and the vector is 'popped(base, k+1)'
+          truncate(n)  keeps the first n elements: a literal vector is sliced; a vector grown by pushes from x and cut at x.len()
+                       (the length read off the very term x) is x again, because x is a prefix of it
+          clear()      leaves the empty vector
+          retain(p)    keeps exactly the elements p accepts, in order: the predicate is evaluated on one generic element and the
+                       result is the element-wise term of Iterator::filter
+          reserve / shrink_to_fit ... change the capacity only
+        Every other method leaves ('mutated', old, callee, site): a rule that needs the content must fail closed on it."""
+        tgt = self.vec_target(e['recv'])
+        if tgt is None:
+            return None
+        name = cal.rsplit('::', 1)[-1]
+        own = 'alloc::vec::Vec::<T, A>::' in cal
+        res, abn = self.seq(e['args'], st)
+        outs = list(abn)
+        for vals, s in res:
+            c = self.vec_read(tgt, s)
+            site = e.get('id')
+            def done(new, ret, s1=s):
+                s2 = self.vec_write(tgt, new, s1, e).event(('call', cal, (c,) + tuple(vals), e))
+                outs.append(Out('val', ret, s2))
+            if own and name == 'pop' and not vals:
+                if c[0] == 'vec':
+                    done(('vec', c[1][:-1]), ('ctor', 'Some', (c[1][-1],)) if c[1] else ('ctor', 'None', ()))
+                elif c[0] == 'vecpush':
+                    done(c[1], ('ctor', 'Some', (c[2],)))
+                else:
+                    b0, k = (c[1], c[2]) if c[0] == 'popped' else (c, s.heap.get(('cursor', c), 0))
+                    h = dict(s.heap); h[('cursor', b0)] = k + 1
+                    done(('popped', b0, k + 1), ('nth', b0, 'pop', k), St(s.env, h, s.ev, s.pc, s.ctr))
+            elif own and name == 'truncate' and len(vals) == 1:
+                done(vec_truncate(c, vals[0]), UNIT)
+            elif own and name == 'clear' and not vals:
+                done(('vec', ()), UNIT)
+            elif own and name in self.VEC_CAPACITY_ONLY:
+                outs.append(Out('val', ('call', cal, (c,) + tuple(vals), site), s.event(('call', cal, (c,) + tuple(vals), e))))
+            elif own and name == 'retain' and len(vals) == 1 and vals[0][0] in ('closure', 'fn'):
+                el, s1 = s.fresh('elem')
+                el = ('elem', c, el[2])
+                for o in self.apply_generic(vals[0], [el], e, s1):
+                    if o.kind != 'val':
+                        outs.append(o); continue
+                    for truth, s3 in self.decide(o.val, o.st):
+                        done(('many', c, el, el if truth else ('skip',)), UNIT, s3)
+            else:
+                done(('mutated', c, cal, site), ('call', cal, (c,) + tuple(vals), site))
+        return outs
+
     def apply(self, fv, args, node, st):
         if fv[0] == 'fn':
             return self.call(fv[1], args, node, st)
@@ -1240,6 +1424,8 @@ class Interp:
                 return ('bin', 'Eq', v, pv)
             if pe.get('defkind', '').startswith('Ctor'):
                 return ('is', v, hirq.short_def(pe.get('ctor_of') or pe.get('def') or pe.get('text', '?')))
+        if k == 'PRange' and range_bounds(p) is not None:
+            return ('matches', v, 'range %s..=%s' % range_bounds(p))      # two range arms over one scrutinee are two different tests
         return ('matches', v, pat_key(p))
 
     def is_variant_pat(self, p):
@@ -1371,6 +1557,25 @@ class Interp:
                 # a literal against a range of literals is decided exactly
                 ok = (lo is None or lo['v'] <= v[1]) and (hi is None or v[1] < hi['v'] + (1 if 'Included' in (p.get('end') or '') else 0))
                 return [('yes' if ok else 'no', st)]
+            b = range_bounds(p)
+            if b is not None:
+                # a symbolic integer against a range of literals is the comparison(s) it amounts to; a bound that is the type's own
+                # (`0..=127` for an unsigned scrutinee) is no test at all.  One remaining bound: that comparison is the atom (so the arm
+                # and an `if` with the same test are the same path condition); two: one atom that names both bounds.
+                lo_v, hi_v = b
+                rng = INT_RANGE.get(hirq.strip_refs(p.get('ty') or ''))
+                if rng is not None and lo_v is not None and lo_v <= rng[0]:
+                    lo_v = None
+                if rng is not None and hi_v is not None and hi_v >= rng[1]:
+                    hi_v = None
+                if lo_v is None and hi_v is None:
+                    return [('yes', st)]
+                if lo_v is None or hi_v is None:
+                    atom = ('bin', 'Le', v, ('lit', hi_v)) if lo_v is None else ('bin', 'Ge', v, ('lit', lo_v))
+                    kn = st.known(atom)
+                    if kn is not None:
+                        return [('yes' if kn else 'no', st)]
+                    return [('maybe', st.assume(atom, True))]
             return [('maybe', st)]
         if k == 'PGuard':
             return [('maybe' if kind == 'yes' else kind, s) for kind, s in self.match(p['pat'], v, st)]
@@ -1411,6 +1616,21 @@ class Interp:
 
 # ---------------------------------------------------------------------------------------
 # term helpers
+
+def range_bounds(p):
+    """(lo, hi) - both inclusive, None for an open end - of a range pattern whose bounds are integer literals; None otherwise"""
+    lo, hi = p.get('lo'), p.get('hi')
+    vals = []
+    for b_ in (lo, hi):
+        if b_ is None:
+            vals.append(None)
+        elif b_.get('k') == 'PLit' and isinstance(b_.get('v'), int) and not isinstance(b_.get('v'), bool):
+            vals.append(-b_['v'] if b_.get('neg') else b_['v'])
+        else:
+            return None
+    if vals[1] is not None and 'Included' not in (p.get('end') or ''):
+        vals[1] -= 1
+    return tuple(vals)
 
 def tuple_elem(v, i):
     if v[0] == 'tuple' and i < len(v[1]):
@@ -1462,8 +1682,11 @@ def bin_term(op, a, b):
                 return ('lit', r())
         except Exception:
             pass
-    if op in ('Eq', 'Ne') and a[0] == 'lit' and b[0] == 'lit' and type(a[1]) is type(b[1]) and isinstance(a[1], (bytes, str)):
-        return ('lit', (a[1] == b[1]) == (op == 'Eq'))     # two literals of the same kind (text / bytes) are equal iff they are the same literal
+    if op in ('Eq', 'Ne') and a[0] == 'lit' and b[0] == 'lit' and isinstance(a[1], (bytes, str)) and isinstance(b[1], (bytes, str)):
+        # two string / byte-string literals are equal exactly when their bytes are (`as_bytes` is transparent, so a str literal may
+        # meet a byte-string literal: a str is its UTF-8 encoding)
+        x, y = (v.encode('utf-8') if isinstance(v, str) else v for v in (a[1], b[1]))
+        return ('lit', (x == y) == (op == 'Eq'))
     if op in ('BitOr', 'BitAnd', 'Or', 'And'):
         for x, y in ((a, b), (b, a)):
             if x[0] == 'lit' and isinstance(x[1], bool):
@@ -1485,9 +1708,38 @@ def bin_term(op, a, b):
         return ('lit', (a[1] == b[1]) == (op == 'Eq'))
     if op in ('Eq', 'Ne') and a[0] == 'ctor' and b[0] == 'ctor' and not a[2] and not b[2]:
         return ('lit', (a[1] == b[1]) == (op == 'Eq'))
+    if op in ('Eq', 'Ne') and a == b and a[0] == 'call' and a[3] is None and not leaves(a, lambda z: z[0] == 'unk'):
+        # the same pure observer (`len`, `is_empty`, ...: site None, see PURE_OBSERVERS) of the same terms is one and the same value -
+        # the assumption `St.known` already makes when the same test is met twice on a path
+        return TRUE if op == 'Eq' else FALSE
+    if op in ('Lt', 'Le', 'Gt', 'Ge') and a == b and a[0] == 'call' and a[3] is None and a[1].rsplit('::', 1)[-1] == 'len' and not leaves(a, lambda z: z[0] == 'unk'):
+        return TRUE if op in ('Le', 'Ge') else FALSE      # n < n, n <= n for one and the same length n (an integer)
+    if op in ('Eq', 'Ne', 'Lt', 'Le', 'Gt', 'Ge'):
+        # Iterator::position(pred) answers Some(i) only with the index i of an element it visited, so i < the number of elements of
+        # the sequence it walked: against `len` of that very sequence term the comparison is decided.  (As everywhere in this
+        # domain the term of a sequence stands for its value; a rule that leans on this for a mutable local has to see that nothing
+        # changes its length in between - C15 V2.value-set-only-permuted does.)
+        flip = {'Eq': 'Eq', 'Ne': 'Ne', 'Lt': 'Gt', 'Le': 'Ge', 'Gt': 'Lt', 'Ge': 'Le'}
+        for x, y, o2 in ((a, b, op), (b, a, flip[op])):
+            if x[0] == 'posidx' and x[1][0] == 'position' and y[0] == 'call' and y[1].rsplit('::', 1)[-1] == 'len' and len(y[2]) == 1 and y[2][0] == x[1][1]:
+                return TRUE if o2 in ('Ne', 'Lt', 'Le') else FALSE
     if op == 'Ne':
         return ('not', ('bin', 'Eq', a, b))
     return ('bin', op, a, b)
+
+def vec_truncate(c, n):
+    """The content of vector term c after truncate(n)."""
+    if c[0] == 'vec' and n[0] == 'lit' and isinstance(n[1], int) and not isinstance(n[1], bool):
+        return ('vec', c[1][:max(n[1], 0)])
+    if n[0] == 'call' and n[1].endswith('alloc::vec::Vec::<T, A>::len') and len(n[2]) == 1:
+        x = c
+        while True:
+            if x == n[2][0]:
+                return x            # c = x ++ [pushed...]: its first len(x) elements are x
+            if x[0] != 'vecpush':
+                break
+            x = x[1]
+    return ('truncated', c, n)
 
 def finite_seq(t):
     """The element terms of a sequence value whose length is known syntactically: an array expression `[a, b, c]` (iter / into_iter
